@@ -352,10 +352,21 @@ typename Sig::combiner_function make_combiner(int c)
 template <typename Sig>
 constexpr bool is_void_sig = std::is_void_v<typename Sig::result_type>;
 
+// a call may be nested inside another one (an unregister function that runs while a callback lets go of a connection
+// looks at every signal): the outer log is put aside and restored
+struct log_guard
+{
+  std::vector<int> saved;
+  log_guard() { saved.swap(call_log); }
+  ~log_guard() { call_log.swap(saved); }
+  log_guard(log_guard const &) = delete;
+  log_guard &operator=(log_guard const &) = delete;
+};
+
 template <typename Sig>
 std::string call_str(Sig &s, int init, int arg)
 {
-  call_log.clear();
+  log_guard const guard{};
   std::string res = "v";
   try
   {
@@ -385,7 +396,7 @@ std::string bwd_str(Sig &s)
   auto &l = s.connections();
   auto const &cl = l;
   std::vector<int> a, b;
-  call_log.clear();
+  log_guard const guard{};
   try
   {
     unsigned steps = 0;
@@ -417,7 +428,6 @@ std::string bwd_str(Sig &s)
   {
     return "overrun";
   }
-  call_log.clear();
   return a == b ? vh::join(a) : std::string("const-mismatch");
 }
 
@@ -464,6 +474,16 @@ std::string sig_dump()
   return r + " unreg=" + (u.empty() ? "-" : u);
 }
 
+// callbacks with effects: what callback f does besides returning its value, while `acts_on` (inside rcall / rvcall)
+struct action
+{
+  int kind = 0; // 0 nothing, 1 reset holder a, 2 clear container a, 3 connect callback c (unregister d) to signal b into holder a
+  unsigned a = 0, b = 0, c = 0, d = 0;
+};
+action actions[100];
+bool acts_on = false;
+void run_action(int f);
+
 auto make_callback(int f)
 {
   return [f](int arg)
@@ -472,6 +492,8 @@ auto make_callback(int f)
     if (call_log.size() > walk_cap + 1)
       throw overrun_exc{};
     call_log.push_back(f);
+    if (acts_on)
+      run_action(f);
     return cb_fn(f, arg);
   };
 }
@@ -483,6 +505,8 @@ auto make_void_callback(int f)
     if (call_log.size() > walk_cap + 1)
       throw overrun_exc{};
     call_log.push_back(f);
+    if (acts_on)
+      run_action(f);
   };
 }
 
@@ -492,7 +516,10 @@ fcppt::signal::unregister::function make_unregister(unsigned d)
                                              {
                                                ++unreg_count[d];
                                                // the dying connection must already be out of every signal
+                                               bool const saved = acts_on;
+                                               acts_on = false;
                                                unreg_saw.push_back("u" + std::to_string(d) + "@" + sig_calls());
+                                               acts_on = saved;
                                              }};
 }
 
@@ -508,8 +535,55 @@ bool conn_id_in_use(unsigned x)
   return false;
 }
 
+void connect_into(unsigned h, unsigned s, int f, unsigned u)
+{
+  switch (sig_family(s))
+  {
+  case 0:
+    holders[h] = fcppt::signal::optional_auto_connection{usigs[s]->connect(usig_t::function{make_callback(f)}, make_unregister(u))};
+    break;
+  case 1:
+    holders[h] = fcppt::signal::optional_auto_connection{psigs[s]->connect(psig_t::function{make_callback(f)})};
+    break;
+  case 2:
+    holders[h] = fcppt::signal::optional_auto_connection{vsigs[s]->connect(vsig_t::function{make_void_callback(f)}, make_unregister(u))};
+    break;
+  default:
+    holders[h] = fcppt::signal::optional_auto_connection{wsigs[s]->connect(wsig_t::function{make_void_callback(f)})};
+  }
+  held[h] = static_cast<int>(h);
+}
+
+void run_action(int f)
+{
+  action const &ac = actions[f];
+  switch (ac.kind)
+  {
+  case 1:
+    if (held[ac.a] >= 0)
+    {
+      holders[ac.a] = fcppt::signal::optional_auto_connection{};
+      held[ac.a] = -1;
+    }
+    break;
+  case 2:
+    conts[ac.a].clear();
+    cheld[ac.a].clear();
+    break;
+  case 3:
+    if (held[ac.a] < 0 && !conn_id_in_use(ac.a) && sig_live(ac.b))
+      connect_into(ac.a, ac.b, static_cast<int>(ac.c), ac.d);
+    break;
+  default:
+    break;
+  }
+}
+
 void reset_all()
 {
+  for (auto &ac : actions)
+    ac = action{};
+  acts_on = false;
   // connections and elements first, then their lists (any order is legal; this one is the usual one)
   for (auto &c : conts)
     c.clear();
@@ -931,6 +1005,42 @@ std::string handle(std::vector<std::string> const &t)
     vsigs[a].reset();
     wsigs[a].reset();
     return "ok" + sig_dump();
+  }
+  if (o == "AN" && t.size() == 2 && num(t[1], 100, a))
+  {
+    actions[a] = action{};
+    return "ok";
+  }
+  if (o == "AR" && t.size() == 3 && num(t[1], 100, a) && num(t[2], max_elems, b))
+  {
+    actions[a] = action{1, b, 0, 0, 0};
+    return "ok";
+  }
+  if (o == "AK" && t.size() == 3 && num(t[1], 100, a) && num(t[2], max_conts, b))
+  {
+    actions[a] = action{2, b, 0, 0, 0};
+    return "ok";
+  }
+  if (o == "AC" && t.size() == 6 && num(t[1], 100, a) && num(t[2], max_elems, b) && num(t[3], max_lists, c) && num(t[4], 100, d))
+  {
+    unsigned u = 0;
+    if (!num(t[5], 64, u))
+      return "bad-op";
+    actions[a] = action{3, b, c, d, u};
+    return "ok";
+  }
+  if ((o == "rcall" && t.size() == 4 && num(t[1], max_lists, a) && num(t[2], 1000, b) && num(t[3], 1000, c)) ||
+      (o == "rvcall" && t.size() == 3 && num(t[1], max_lists, a) && num(t[2], 1000, c)))
+  {
+    if (!sig_live(a) || (sig_family(a) >= 2) != (o == "rvcall"))
+      return "bad-op";
+    unreg_saw.clear();
+    acts_on = true;
+    std::string const r = call_any(a, o == "rcall" ? static_cast<int>(b) : 0, static_cast<int>(c));
+    acts_on = false;
+    if (r == "overrun" || r == "nocomb")
+      return "ok " + r;
+    return "ok " + r + sig_dump();
   }
   if (o == "call" && t.size() == 4 && num(t[1], max_lists, a) && num(t[2], 1000, b) && num(t[3], 1000, c))
   {
